@@ -289,7 +289,7 @@ func (probeFamily) Exec(c *hc.Case) {
 // The model sees: SleepStart at the opening, the timer firings, and the Check calls in gate-arrival order.
 func (probeFamily) Emit(w io.Writer, f *hc.File) {
 	fmt.Fprintln(w, "From CV Require Import Base.Prelude Seq.TimedCheck Seq.CaseCheck.")
-	fmt.Fprintf(w, "Definition t0 : Z := %d.\n", hc.T0.UnixNano())
+	fmt.Fprintf(w, "Definition t0 : Z := %s.\n", hc.ZofTime(hc.T0))
 	fmt.Fprintln(w, "Definition cases : list tc_case := [")
 	for i, c := range f.Cases {
 		var p probeParams
